@@ -220,7 +220,7 @@ func runC18(r *core.Run) {
 		"a dump referencing them plus frames under no root, decoys whose tail exists under a local root, and the go-test main; every frame's LocalSrcPath/RelSrcPath/ImportPath/Location and the detected roots are compared with the layout that generated them. " +
 		"distinct by (seed, index); non-trivial = layout with >= 2 kinds of roots")
 	r.Assume("relative paths are unique across roots by construction; nested modules / overlapping GOPATH roots are a matter of priority and are exercised in C06 only")
-	n := r.N(6000, 30000)
+	n := r.N(6000, 120000)
 	core.Parallel(n, workers(), func(i int) {
 		c := &c18Case{Seed: r.Seed, Idx: i}
 		c18Eval(r, c)
